@@ -4,6 +4,7 @@ package interp
 // (the real implementation indexes a table with the operand).
 
 import (
+	"fmt"
 	"go/types"
 	"math/big"
 )
@@ -16,12 +17,19 @@ func init() {
 			if !ok {
 				return fallThrough{}
 			}
-			tc := fr.i.tc
-			t := tc.ConstI(int64(bits))
-			for n := bits - 1; n >= 0; n-- {
-				// x < 2^n  ->  length <= n
-				t = tc.Ite(tc.Lt(s.t, tc.Const(new(big.Int).Lsh(bigOne, uint(n)))), tc.ConstI(int64(n)), t)
+			// relational encoding: a fresh variable L with  OR_n (L = n and 2^(n-1) <= x < 2^n)
+			i := fr.i
+			tc := i.tc
+			i.bitsN++
+			t := tc.Var(fmt.Sprintf("bitlen!%d", i.bitsN), SInt)
+			i.assume(tc.And(tc.Le(tc.ConstI(0), t), tc.Le(t, tc.ConstI(int64(bits)))), "range of a bit length")
+			cases := tc.And(tc.Eq(t, tc.ConstI(0)), tc.Eq(s.t, tc.ConstI(0)))
+			for n := 1; n <= bits; n++ {
+				lo := tc.Const(new(big.Int).Lsh(bigOne, uint(n-1)))
+				hi := tc.Const(new(big.Int).Lsh(bigOne, uint(n)))
+				cases = tc.Or(cases, tc.And(tc.Eq(t, tc.ConstI(int64(n))), tc.And(tc.Le(lo, s.t), tc.Lt(s.t, hi))))
 			}
+			i.assume(cases, "definition of a bit length")
 			return tc.mkInt(t, types.Int)
 		}
 	}
